@@ -133,7 +133,6 @@ PROPS['C10'] = {
         'the fallback_id restore in the clause loop of next_solution (solver, outside reach)',
         'get_rule: which vector the HashMap returns for a &str key is vstd\'s uninterpreted maps_borrowed_key_to_value (no String/str key axiom in vstd); the contract says the result is the renamed index-th rule of that vector',
         'make_query: the static-mut reset in start_query is covered by C22 (Kani); parse_query\'s call in unit parsers does not establish the wf_seq precondition (consistent list counts of the parsed terms)',
-        'termination of the recursive renaming (exec_allows_no_decreases_clause)',
     ],
 }
 
@@ -182,7 +181,7 @@ PROPS['C18'] = {
         'so that every token group starts with a subgoal or a nested group (argument in DESIGN.md 8.8; exercised by the bounded oracle on every run). Everything else about the tokenizer is proved, '
         'including that the grouping functions only build trees that token_tree_to_goal accepts (its three panics are unreachable)',
         'usize is 64 bits (global size_of usize == 8) in the token units',
-        'termination of the mutual recursion (parse_term -> make_term -> parse_complex/parse_function/parse_linked_list -> parse_arguments -> make_term; parse_subgoal <-> parse_operator_goal): each call is on a strictly shorter text, but that measure is not machine-checked (exec_allows_no_decreases_clause); every loop inside the proved functions has a decreases clause',
+        'PROVED: termination of the mutual recursion of the parsers (decreases (length of the text, rank of the function): parse_term -> make_term -> parse_complex / parse_function / parse_linked_list -> parse_functor_terms -> parse_arguments -> make_term; parse_subgoal <-> parse_operator_goal; get_left_and_right), of group_tokens (tokens.len() - index) and of group_and_tokens / token_tree_to_goal (structural), and of every loop',
         'texts of 2^31 characters or more (bracket depths and positions are kept in i32)',
     ],
 }
